@@ -834,6 +834,20 @@ func RunC16(r *mon.Run) {
 			execCand(r, deliver(&Cand{Rule: RuleSpec{Verb: verb, Tmpl: m, Via: "annotation"}, Base: baseFor(), Origin: "single-edit"}), rng)
 		}
 	}
+	// (a0) every bindable field kind once in each variable form: a path
+	// variable on any scalar / enum / well-known leaf is valid
+	for fi, f := range append(append(append([]string{}, strFields...), typFields...), "ws", "wl", "ts", "dur", "fm", "flt", "sn", "sl", "f32", "f64", "sf64") {
+		for ti, tmpl := range []string{"/kind/{" + f + "}", "/kind/{" + f + "=*}/tail", "/kind/x1/{" + f + "}:pick"} {
+			c := &Cand{Rule: RuleSpec{Verb: []string{"GET", "POST", "DELETE"}[ti], Tmpl: tmpl, Via: "annotation"}, Origin: "field-kinds"}
+			if (fi+ti)%2 == 1 {
+				c.Base = baseFor()
+			}
+			if (fi+ti)%3 == 2 {
+				deliver(c)
+			}
+			execCand(r, c, rng)
+		}
+	}
 	// (c) selector tables
 	for _, body := range bodySelectors {
 		for _, resp := range respSelectors {
